@@ -323,7 +323,8 @@ class MinGenSet():
         start_time = time.perf_counter()
 
         # Solve for increasing numbers of elements in the generating set
-        for k in range(self.lowerbound, max(self.lowerbound+1, len(self.initial_numbers))):
+        # A smallest generating set can have more elements than there are numbers (e.g. numbers = [3], total = 10 needs {3, 7})
+        for k in range(self.lowerbound, max(self.lowerbound, len(self.initial_numbers)) + 2):
             self._create_solver(k=k)
             self.solver.optimize()
 
